@@ -9,7 +9,7 @@ boxes and inline boxes (ltr, no float, no atomic inline, one font), under every 
 the block (inherited by all the boxes): no break opportunity between two children under `pre` /
 `nowrap`, `can_break_inside` only under the wrapping values, preserved line breaks inside nested boxes
 (`preserved_line_break` travels up to `get_next_linebox`: the line is then aligned like a last line and
-is never a phantom line box).
+is never a phantom line box; it is reset when `_break_waiting_children` shortened the line, fix 889a2ec).
 
 Mirrors the code, quirks included: `max_x *= 1 + 1e-9` at every nesting level; `first_letter` of a
 resumed text box is the first letter of the whole box; the end spacing is only reserved for the
@@ -30,7 +30,26 @@ inductive Node where
   /-- `InlineBox`: left / right spacing (margin + border + padding), "has any non-zero margin, border
   or padding in its style" (for `is_phantom_linebox`), children -/
   | box (ls rs : Rat) (deco : Bool) (kids : List Node)
+  /-- an `InlineBox` whose `trailing_collapsible_space` is set (by `build.inline_in_block`: its last
+  children were text boxes emptied by white-space collapsing): the box itself, flagged -/
+  | flagged (n : Node)
   deriving Repr, Inhabited
+
+/-- `child.trailing_collapsible_space` -/
+def Node.tcs : Node → Bool
+  | .flagged _ => true
+  | _ => false
+
+/-- `last_letter` of `split_inline_box`: `None`, a character, or `True` (a collapsed space) -/
+inductive Last where
+  | none
+  | ch (c : Char)
+  | collapsed
+  deriving Repr, Inhabited, DecidableEq
+
+def Last.ofOpt : Option Char → Last
+  | some c => .ch c
+  | .none => .none
 
 /-- `skip_stack` / `resume_at`: `{idx: sub}` -/
 inductive Skip where
@@ -94,7 +113,7 @@ structure LevelOut where
   frag : Option Frag
   resume : Option Skip
   first : Option Char
-  last : Option Char
+  last : Last
   /-- `preserved_line_break` -/
   preserved : Bool := false
   deriving Repr, Inhabited
@@ -112,7 +131,7 @@ structure LoopOut where
   resume : Option Skip
   posX : Rat
   first : Option Char
-  last : Option Char
+  last : Last
   preserved : Bool := false
   deriving Repr, Inhabited
 
@@ -127,9 +146,9 @@ def textLevel (st : Style) (s : Text) (posX maxX : Rat) (skip : Option Skip) : E
       { frag := r.child.map (fun c => Frag.text c.text posX c.width)
         resume := r.resume.map (fun k => Skip.mk k none)
         first := s.head?
-        last := match r.resume with
+        last := Last.ofOpt (match r.resume with
           | none => s.getLast?
-          | some k => (s.take k).getLast?
+          | some k => (s.take k).getLast?)
         preserved := r.preserved }
 
 /-- does the new text child end with a space (`unicodedata.category(text[-1]) == 'Zs'`) -/
@@ -177,7 +196,7 @@ def tryWaiting (ws : WS) (split : Split) (skip : Option Skip) (kept : List Entry
 
 /-- the `for i, child in enumerate(box.children[skip:])` loop of `split_inline_box` -/
 def boxLoop (ws : WS) (split : Split) (rs maxX : Rat) (skip : Option Skip) :
-    List Node → Nat → Rat → List Entry → List Entry → Option Char → Option Char → Bool → Option Skip →
+    List Node → Nat → Rat → List Entry → List Entry → Option Char → Last → Bool → Option Skip →
       Except PyErr LoopOut
   | [], _, posX', children, waiting, firstL, lastL, pres, _ =>
     .ok { children := children ++ waiting, resume := none, posX := posX', first := firstL, last := lastL,
@@ -190,17 +209,26 @@ def boxLoop (ws : WS) (split : Split) (rs maxX : Rat) (skip : Option Skip) :
         split child posX' (maxX - rs) subSkip
       else .ok out0).bind fun out =>
     let pres1 := pres || out.preserved
-    -- `elif box.style['white_space'] in ('pre', 'nowrap'): can_break = False`
-    let canBreak := if ws.noBreakBetween then false else
-      match lastL, out.first with
-      | some a, some b => canBreakPair a b
-      | _, _ => false
+    -- `if last_letter is True: last_letter = ' '` … `elif box.style['white_space'] in ('pre', 'nowrap'):
+    -- can_break = False` (an `elif`: not consulted after a collapsed space) … `can_break_text(last_letter + first)`
+    let canBreak := match lastL with
+      | .collapsed =>
+        (match out.first with
+         | some b => canBreakPair ' ' b
+         | none => false)
+      | .ch a =>
+        if ws.noBreakBetween then false else
+        (match out.first with
+         | some b => canBreakPair a b
+         | none => false)
+      | .none => false
     let children1 := if canBreak then children ++ waiting else children
     let waiting1 := if canBreak then [] else waiting
     let firstL1 := match firstL with
       | none => out.first
       | some c => some c
-    let lastL1 := out.last
+    -- `if child.trailing_collapsible_space: last_letter = True else: last_letter = last`
+    let lastL1 := if child.tcs then Last.collapsed else out.last
     let finish (posX2 : Rat) (waiting2 : List Entry) : Except PyErr LoopOut :=
       match out.resume with
       | some r =>
@@ -212,18 +240,19 @@ def boxLoop (ws : WS) (split : Split) (rs maxX : Rat) (skip : Option Skip) :
     | some f =>
       let newPos := f.x + f.marginWidth
       if newPos > maxX ∧ !f.trailingWhitespace then
-        -- _break_waiting_children
+        -- _break_waiting_children; `if previous_resume_at: … preserved_line_break = False` (fix 889a2ec): in both
+        -- cases the line now ends before the current child
         (tryWaiting ws split skip children1 waiting1.reverse).bind fun prev =>
           match prev with
           | some (kept, r) =>
             .ok { children := kept, resume := some r, posX := posX', first := firstL1, last := lastL1,
-                  preserved := pres1 }
+                  preserved := false }
           | none =>
             match children1.getLast? with
             | some lastChild =>
               -- put the child entirely on the next line
               .ok { children := children1, resume := some (.mk (lastChild.idx + 1) none), posX := posX',
-                    first := firstL1, last := lastL1, preserved := pres1 }
+                    first := firstL1, last := lastL1, preserved := false }
             | none => finish newPos (waiting1 ++ [{ idx := index, frag := f, orig := child }])
       else finish newPos (waiting1 ++ [{ idx := index, frag := f, orig := child }])
 
@@ -235,7 +264,7 @@ def boxLevel (ws : WS) (split : Split) (ls rs : Rat) (deco : Bool) (kids : List 
     | some s => s.idx
     | none => 0
   let sub := skip.bind Skip.sub
-  (boxLoop ws split rs maxX skip (kids.drop skipIdx) skipIdx posX [] [] none none false sub).map fun lo =>
+  (boxLoop ws split rs maxX skip (kids.drop skipIdx) skipIdx posX [] [] none .none false sub).map fun lo =>
     let isStart := skip.isNone
     let isEnd := lo.resume.isNone
     let frags := lo.children.map (·.frag)
@@ -252,6 +281,7 @@ def splitLevel (st : Style) : Nat → Split
   | _ + 1, .text s, posX, maxX, skip => textLevel st s posX maxX skip
   | fuel + 1, .box ls rs deco kids, posX, maxX0, skip =>
     boxLevel st.ws (splitLevel st fuel) ls rs deco kids posX maxX0 skip
+  | fuel + 1, .flagged n, posX, maxX0, skip => splitLevel st fuel n posX maxX0 skip
 
 /-- a line box: `split_inline_box` on the `LineBox` (no spacing; width from the last child) -/
 structure LineOut where
@@ -294,6 +324,7 @@ def skipFirst (ws : WS) : Nat → Node → Option Skip → Except PyErr SkipRes
       match skipFirstWhitespace ws s index with
       | none => .ok .cont
       | some i => .ok (.skip (if i = 0 then none else some (.mk i none)))
+  | fuel + 1, .flagged n, skip => skipFirst ws fuel n skip
   | fuel + 1, .box _ _ _ kids, skip =>
     let index := match skip with
       | some s => s.idx
@@ -403,6 +434,7 @@ mutual
 def textLen : Node → Nat
   | .text s => s.length + 1
   | .box _ _ _ kids => textLenL kids + 1
+  | .flagged n => textLen n + 1
 def textLenL : List Node → Nat
   | [] => 0
   | n :: ns => textLen n + textLenL ns
